@@ -485,6 +485,79 @@ Proof.
     destruct (g_status (get_status c fs d (l_name t) (shown_def d t) true)) eqn:Es; inversion H; subst; repeat split; auto; discriminate.
 Qed.
 
+(* ---- an ignored task is never handed to get_status: its record -- whatever checker wrote it -- is as before,
+   through the whole command, and its line shows I ---- *)
+Definition ign_kept (d d' : db) : Prop := forall x, status_is_ignore d x = true -> d' x = d x.
+Lemma ign_kept_refl d : ign_kept d d.
+Proof. intros x _; reflexivity. Qed.
+Lemma ign_kept_ignore d d' x : ign_kept d d' -> status_is_ignore d x = true -> status_is_ignore d' x = true.
+Proof. intros H Hi. unfold status_is_ignore, getrec in *. rewrite (H x Hi). exact Hi. Qed.
+Lemma ign_kept_trans d1 d2 d3 : ign_kept d1 d2 -> ign_kept d2 d3 -> ign_kept d1 d3.
+Proof.
+  intros H1 H2 x Hi. rewrite (H2 x (ign_kept_ignore d1 d2 x H1 Hi)). apply H1; auto.
+Qed.
+
+Lemma get_status_ign_kept c fs d t df gl : status_is_ignore d t = false -> ign_kept d (g_db (get_status c fs d t df gl)).
+Proof.
+  intros Hf x Hi. destruct (get_status_db md5 v c fs d t df gl) as [E|[_ E]]; rewrite E; auto.
+  apply remove_other. intros ->. congruence.
+Qed.
+
+Lemma task_status_ign_kept c fs d t : ign_kept d (snd (task_status c fs d t)).
+Proof.
+  unfold Introspect.task_status. destruct (status_is_ignore d (l_name t)) eqn:Ei; simpl.
+  - apply ign_kept_refl.
+  - apply get_status_ign_kept; auto.
+Qed.
+
+Lemma task_status_ignored c fs d t : status_is_ignore d (l_name t) = true -> task_status c fs d t = (Some LtI, d).
+Proof. intros Hi. unfold Introspect.task_status. rewrite Hi. reflexivity. Qed.
+
+Lemma print_tasks_ign_kept c fs o pl : forall d, ign_kept d (lres_db d (print_tasks c fs o pl d)).
+Proof.
+  induction pl as [|t pl IH]; intros d; simpl.
+  - apply ign_kept_refl.
+  - destruct (o_status o).
+    + pose proof (task_status_ign_kept c fs d t) as F.
+      destruct (task_status c fs d t) as [[l|] d1]; simpl in *; auto.
+      specialize (IH d1).
+      destruct (print_tasks c fs o pl d1); simpl in *; try apply ign_kept_refl; eapply ign_kept_trans; eauto.
+    + specialize (IH d). destruct (print_tasks c fs o pl d); simpl in *; auto; apply ign_kept_refl.
+Qed.
+
+Lemma list_cmd_ign_kept name_ltb o c fs d : ign_kept d (lres_db d (list_cmd md5 v name_ltb iv cv tb o c fs d)).
+Proof.
+  unfold Introspect.list_cmd. destruct (print_list name_ltb tb o); simpl; try apply ign_kept_refl.
+  apply print_tasks_ign_kept.
+Qed.
+
+(* every line `list --status` prints for a task that carries the ignore mark when the command starts shows I *)
+Lemma status_letters_ignored c fs pl : forall d n l dk,
+  In (n, l, dk) (status_letters c fs pl d) -> status_is_ignore d n = true -> l = Some LtI /\ dk n = d n.
+Proof.
+  induction pl as [|t pl IH]; intros d n l dk H Hi; simpl in H; [destruct H|].
+  destruct H as [H|H].
+  - inversion H; subst. rewrite task_status_ignored by auto. auto.
+  - pose proof (task_status_ign_kept c fs d t) as K.
+    destruct (IH _ _ _ _ H (ign_kept_ignore _ _ _ K Hi)) as [A B]. split; auto. rewrite B. apply K; auto.
+Qed.
+
+(* `info` (HEAD: the ignore mark is looked at first) *)
+Lemma info_cmd_ign_kept pos hide c fs d : fixIgn iv = true -> ign_kept d (ires_db d (info_cmd pos hide c fs d)).
+Proof.
+  intros Hfix. unfold Introspect.info_cmd. destruct pos as [|n [|n2 pos]]; simpl; try apply ign_kept_refl.
+  destruct (lookup tb n) as [t|]; simpl; try apply ign_kept_refl.
+  destruct hide; simpl; try apply ign_kept_refl.
+  rewrite Hfix. simpl.
+  destruct (status_is_ignore d (l_name t)) eqn:Ei; simpl; try apply ign_kept_refl.
+  pose proof (get_status_ign_kept c fs d (l_name t) (shown_def d t) true Ei) as F.
+  destruct (g_status (get_status c fs d (l_name t) (shown_def d t) true)); simpl; auto.
+Qed.
+
+Lemma info_cmd_ignored n t c fs d : fixIgn iv = true -> lookup tb n = Some t -> status_is_ignore d (l_name t) = true ->
+  info_cmd [n] false c fs d = IOk IIgnored [] 0 d.
+Proof. intros Hfix Hl Hi. unfold Introspect.info_cmd. rewrite Hl, Hfix, Hi. reflexivity. Qed.
+
 End Cmds.
 
 (* ---- Runner.select_task on a node selected for the first time, with no bad / ignored dependency
@@ -1132,6 +1205,38 @@ Lemma T_list_agrees_one : forall (md5 : N -> N) (v : ver) (iv : iver) (cv : name
   fst (task_status md5 v iv cv tb c fs d t) = decision_letter (run_decision md5 v c fs d (l_name t) (run_def tb (saved_cv cv d) t)).
 Proof.
   intros md5 v iv cv tb c fs d t Hfix. rewrite task_status_decision. unfold shown_def. rewrite Hfix. reflexivity.
+Qed.
+
+Lemma persisted_ign_kept b d d' : ign_kept d d' -> ign_kept d (persisted b d d').
+Proof. intros H. destruct b; simpl; auto; apply ign_kept_refl. Qed.
+
+(* ignore mark + any checker: `list` (any options, any outcome, any code version) leaves the record alone -- in memory and,
+   whatever the backend, on disk --, shows I on its line, and `run` skips the task as ignored *)
+Lemma T_list_status_ignored : forall (md5 : N -> N) (v : ver) (name_ltb : name -> name -> bool) (iv : iver) (cv : name -> cvals)
+    (tb : table) (o : lopts) (c : ck) (fs : fsys) (d : db) (b : backend) (x : name),
+  status_is_ignore d x = true ->
+  persisted b d (lres_db d (list_cmd md5 v name_ltb iv cv tb o c fs d)) x = d x /\
+  (forall t, l_name t = x -> task_status md5 v iv cv tb c fs d t = (Some LtI, d)) /\
+  (forall df, run_decision md5 v c fs d x df = DIgnore) /\
+  (forall pl, print_list name_ltb tb o = POk pl ->
+     forall l dk, In (x, l, dk) (status_letters md5 v iv cv tb c fs pl d) -> l = Some LtI /\ dk x = d x).
+Proof.
+  intros md5 v lt iv cv tb o c fs d b x Hi. split; [|split; [|split]].
+  - apply (persisted_ign_kept b d _ (list_cmd_ign_kept md5 v iv cv tb lt o c fs d) x Hi).
+  - intros t <-. apply task_status_ignored; auto.
+  - intros df. unfold run_decision. rewrite Hi. reflexivity.
+  - intros pl _ l dk Hin. apply (status_letters_ignored md5 v iv cv tb c fs pl d x l dk Hin Hi).
+Qed.
+
+Lemma T_info_ignored : forall (md5 : N -> N) (v : ver) (iv : iver) (cv : name -> cvals) (tb : table) (pos : list name) (hide : bool)
+    (c : ck) (fs : fsys) (d : db) (b : backend) (x : name),
+  fixIgn iv = true -> status_is_ignore d x = true ->
+  persisted b d (ires_db d (info_cmd md5 v iv cv tb pos hide c fs d)) x = d x /\
+  (forall t, lookup tb x = Some t -> info_cmd md5 v iv cv tb [x] false c fs d = IOk IIgnored [] 0 d).
+Proof.
+  intros md5 v iv cv tb pos hide c fs d b x Hfix Hi. split.
+  - apply (persisted_ign_kept b d _ (info_cmd_ign_kept md5 v iv cv tb pos hide c fs d Hfix) x Hi).
+  - intros t Hl. apply (info_cmd_ignored md5 v iv cv tb x t c fs d Hfix Hl). destruct (lookup_name tb x t Hl) as [-> _]. exact Hi.
 Qed.
 
 Lemma T_reachable_no_typeerror : forall (md5 : N -> N) (size_of : N -> Z) (ops : list op) (t : name) (df : tdef) (gl : bool),
